@@ -879,6 +879,49 @@ package rueidis
 //@   ensures [C25 a-second-release-hands-nothing-back] old(c.mark) ==> calls(Store) == 0
 
 // ---------------------------------------------------------------------------------------------
+// C23 — the sentinel client installs a node as master (replica) only after that node answered ROLE as master (slave),
+// asks the address the sentinel reported, and routes primary traffic to the installed master connection (sentinel.go).
+//@ immutable [C23] sentinelClient replica mOpt
+//@ func sentinelClient._switchTarget #c23
+//@   modifies *
+//@   assert [C23 the-candidate-is-asked-for-its-role] at Do: arg2 == cmds.RoleCmd
+//@   assert [C23 master-address-recorded-only-after-role-master] at Store#1: isMaster && arg0 == &c.mAddr && first(returned(ToArray))[0].string() == "master" && second(returned(ToArray)) == nil
+//@   assert [C23 master-connection-installed-only-after-role-master] at Swap#1: isMaster && arg0 == &c.mConn && first(returned(ToArray))[0].string() == "master" && second(returned(ToArray)) == nil
+//@   assert [C23 replica-address-recorded-only-after-role-slave] at Store#2: !isMaster && arg0 == &c.rAddr && first(returned(ToArray))[0].string() == "slave" && second(returned(ToArray)) == nil
+//@   assert [C23 replica-connection-installed-only-after-role-slave] at Swap#2: !isMaster && arg0 == &c.rConn && first(returned(ToArray))[0].string() == "slave" && second(returned(ToArray)) == nil
+//@   ensures [C23 a-node-that-answered-but-is-not-installed-is-closed where-defined] (calls(ToArray) == 1 && second(returned(ToArray)) == nil && err != nil) ==> (calls(Swap) == 0 && calls(Store) == 0 && calls(Close) >= 1)
+//@   ensures [C23 a-failed-role-query-installs-nothing] err != nil ==> (calls(Swap) == 0 && calls(Store) == 0)
+
+//@ func sentinelClient._refresh #c23
+//@   modifies *
+//@   assert [C23 replica-mode-follows-the-replica-the-sentinel-reported] at _switchTarget#1: arg1 == second(returned(listWatch)) && arg2 == false && fourth(returned(listWatch)) == nil
+//@   assert [C23 primary-follows-the-master-the-sentinel-reported] at _switchTarget#2: arg1 == first(returned(listWatch)) && arg2 == true && fourth(returned(listWatch)) == nil
+
+//@ func sentinelClient.listWatch #c23
+//@   modifies *
+//@   assert [C23 the-master-address-is-asked-in-position-1-unless-replica-only] at DoMulti: (c.replica ==> (len(arg2) == 2 && arg2[0] == sentinelsCMD && arg2[1] == replicasCMD)) && (!c.replica ==> (len(arg2) >= 2 && arg2[0] == sentinelsCMD && arg2[1] == getMasterCMD)) && ((!c.replica && c.mOpt.SendToReplicas != nil) ==> (len(arg2) == 3 && arg2[2] == replicasCMD))
+//@   assert [C23 replica-candidates-come-from-the-replicas-reply] at pickReplica#1: c.replica && arg0 == resp.s[1]
+//@   assert [C23 replica-candidates-come-from-the-replicas-reply] at pickReplica#2: !c.replica && c.mOpt.SendToReplicas != nil && arg0 == resp.s[2]
+//@   assert [C23 the-master-address-is-read-off-the-get-master-reply] at AsStrSlice: !c.replica && arg0 == resp.s[1]
+//@   assert [C23 the-master-address-is-host-and-port-of-that-reply] at JoinHostPort#2: arg0 == first(returned(AsStrSlice))[0] && arg1 == first(returned(AsStrSlice))[1]
+//@ func pickReplica #c23
+//@   modifies *
+//@   assert [C23 a-replica-marked-down-is-not-eligible] at append: !ok && len(arg1) == 1 && arg1[0] == replica
+
+//@ func sentinelClient.pick #c23
+//@   modifies *
+//@   assert [C23 replica-connection-only-for-replica-clients-or-opted-in-commands] at Load#1: arg0 == &c.rConn && c.replica
+//@   assert [C23 replica-connection-only-for-replica-clients-or-opted-in-commands] at Load#2: arg0 == &c.rConn && !c.replica && returned(SendToReplicas)
+//@   assert [C23 everything-else-goes-to-the-installed-master] at Load#3: arg0 == &c.mConn && !c.replica
+//@   assert [C23 everything-else-goes-to-the-installed-master] at Load#4: arg0 == &c.mConn && !c.replica
+//@ func sentinelClient.pickMulti #c23
+//@   modifies *
+//@   assert [C23 replica-connection-only-for-replica-clients-or-opted-in-batches] at Load#1: arg0 == &c.rConn && c.replica
+//@   assert [C23 replica-connection-only-for-replica-clients-or-opted-in-batches] at Load#2: arg0 == &c.rConn && !c.replica && sendToReplica
+//@   assert [C23 everything-else-goes-to-the-installed-master] at Load#3: arg0 == &c.mConn && !c.replica
+//@   assert [C23 everything-else-goes-to-the-installed-master] at Load#4: arg0 == &c.mConn && !c.replica
+
+// ---------------------------------------------------------------------------------------------
 // C07 — cached replies expire at the earlier of the client TTL and the server PTTL (message.go, lru.go).
 // The expiry of a cached message is the 56-bit little-endian number kept in RedisMessage.ttl (0 = none).
 //@ func RedisMessage.setExpireAt
